@@ -172,6 +172,10 @@ Consume ==
           \/ PrintT(<<"MISMATCH", l, e.ev, ToJson([expect |-> Obs(n), event |-> e])>>)
        /\ (gap \/ n.out.kind # "err" \/ o.kind # "err" \/ n.out.err = o.err
            \/ PrintT(<<"DEVIATION", l, n.out.err, o.err>>))
+       (* the (got, want) diagnostic of an UnexpectedItem, where the specification models it: no property pins it *)
+       /\ (gap \/ n.out.kind # "err" \/ o.kind # "err" \/ n.out.err # "UnexpectedItem" \/ o.err # "UnexpectedItem"
+           \/ n.out.diag = <<>> \/ "diag" \notin DOMAIN o \/ n.out.diag = o.diag
+           \/ PrintT(<<"DEVIATION", l, n.out.diag, o.diag>>))
        (* the property predicates themselves, on the execution the crate really performed *)
        /\ (gap \/ ~dec \/ ~(Prop \in DecodeProps \cup {""} \/ (Prop = "C14" /\ e.api = "tagged")) \/ PropDecode(s, e, o)
            \/ PrintT(<<"PROPFAIL", l, "decode", ToJson([event |-> e, design |-> Obs(n)])>>))
